@@ -1380,16 +1380,24 @@ impl<'a> Parser<'a> {
         if !self.dialect.supports_lambda_functions() {
             return Ok(None);
         }
-        self.maybe_parse(|p| {
+        // Only the header `a, b) ->` is speculative. Parsing the body inside the speculation
+        // as well meant that a body that fails to parse was parsed twice (once here, once as
+        // the right operand of `->`), doubling the work with every level of nesting.
+        let params = self.maybe_parse(|p| {
             let params = p.parse_comma_separated(|p| p.parse_identifier(false))?;
             p.expect_token(&Token::RParen)?;
             p.expect_token(&Token::Arrow)?;
-            let expr = p.parse_expr()?;
-            Ok(Expr::Lambda(LambdaFunction {
-                params: OneOrManyWithParens::Many(params),
-                body: Box::new(expr),
-            }))
-        })
+            Ok(params)
+        })?;
+        let params = match params {
+            Some(params) => params,
+            None => return Ok(None),
+        };
+        let expr = self.parse_expr()?;
+        Ok(Some(Expr::Lambda(LambdaFunction {
+            params: OneOrManyWithParens::Many(params),
+            body: Box::new(expr),
+        })))
     }
 
     pub fn parse_function(&mut self, name: ObjectName) -> Result<Expr, ParserError> {
